@@ -125,13 +125,12 @@ Fixpoint lines (s : str) : list str * str :=
     else match ls with [] => ([], c :: r) | l :: ls' => ((c :: l) :: ls', r) end
   end.
 
-Definition sep_at (l : str) (p : nat) : bool := is_sepchar (nth p (rune_starts l) 0).
-
-(* rune positions at which every line has a column separator *)
+(* rune positions at which every line has a column separator (rune_starts computed once per line) *)
 Definition sep_columns (body : list str) : list nat :=
-  match body with
+  let rs := map rune_starts body in
+  match rs with
   | [] => []
-  | l0 :: _ => filter (fun p => forallb (fun l => sep_at l p) body) (seq 0 (length (rune_starts l0)))
+  | r0 :: _ => filter (fun p => forallb (fun r => is_sepchar (nth p r 0)) rs) (seq 0 (length r0))
   end.
 
 Definition is_nil {A : Type} (l : list A) : bool := match l with [] => true | _ => false end.
